@@ -1175,6 +1175,7 @@ func c10SelfTest() string {
 }
 
 func c10Run(c *hx.Ctx) {
+	gx.AttachRunRule = false // this check makes detached pool calls (see gx.RunRule)
 	restore, realErr := c10Quiet()
 	defer restore()
 	defer func() {
@@ -1253,6 +1254,7 @@ func c10Run(c *hx.Ctx) {
 }
 
 func c10Replay(v *hx.Violation) []hx.Finding {
+	gx.AttachRunRule = false
 	var cs c10Case
 	if err := json.Unmarshal(v.Cfg, &cs); err != nil {
 		return []hx.Finding{{Sig: "c10:replay-internal", Msg: "cannot decode the stored case: " + err.Error()}}
